@@ -61,6 +61,7 @@ impl<const N: usize> Context<N> {
 pub struct AEADCipherCodec<const N: usize> {
     encoder: Option<ChunkEncoder>,
     decoder: Option<ChunkDecoder>,
+    request_head: BytesMut,
 }
 
 impl<const N: usize> AEADCipherCodec<N> {
@@ -135,6 +136,16 @@ impl<const N: usize> AEADCipherCodec<N> {
             Some(ref mut decoder) => {
                 let mut dst = BytesMut::new();
                 decoder.decode_payload(src, &mut dst).map_err(|e| anyhow!(e))?;
+                if matches!(session.mode, Mode::Server) && session.address.is_none() && !context.kind.is_aead_2022() {
+                    // a legacy (SIP004) request starts with the target address, possibly spread over several chunks
+                    self.request_head.extend_from_slice(&dst);
+                    if self.request_head.is_empty() || self.request_head.len() < address::try_decode_at(&self.request_head, 0)? {
+                        return Ok(None);
+                    }
+                    let mut dst = std::mem::take(&mut self.request_head);
+                    session.address = Some(address::decode(&mut dst)?);
+                    return Ok(Some(dst));
+                }
                 if dst.is_empty() { Ok(None) } else { Ok(Some(dst)) }
             }
             None => self.init_payload_decoder(context, session, src),
